@@ -728,13 +728,16 @@ func (a *Assembler) AssembleWithContext(netFlow gopacket.Flow, t *layers.TCP, ac
 		}
 	}
 
+	queued := action.queue
 	action = a.handleBytes(bytes, seq, half, t.SYN, t.RST || t.FIN, action, ac)
 	if len(a.ret) > 0 {
 		action.nextSeq = a.sendToConnection(conn, half, ac)
 	}
 	if action.nextSeq != invalidSequence {
 		half.nextSeq = action.nextSeq
-		if t.FIN {
+		// The FIN occupies a sequence number only once it has been passed on:
+		// a FIN that was queued is still ahead of whatever a limit released.
+		if t.FIN && !queued {
 			half.nextSeq = half.nextSeq.Add(1)
 		}
 	}
